@@ -314,3 +314,25 @@ CHECKS["C17"] = dict(
     assumptions=["input paths are valid at the space's resolution and at r/4 (harness-checked)",
                  "no clause ties the boolean result of the individual routines to 'path changed' (the statement does not)"],
 )
+
+CHECKS["C20"] = dict(
+    src="harness/C20_determinism.cpp",
+    cases=dict(quick=2500, thorough=40000),
+    rule="Case = (80%) single-threaded planner (39 registry entries: every planner whose solve() spawns no thread, decided by reading the code - "
+         "PRM, PRMstar, SPARS, SPARStwo, pRRT, pSBL, CForest, AnytimePathShortening are excluded) x problem (normal scenarios of C01, incl. Dubins / "
+         "Reeds-Shepp for directed planners) x seed x evaluation budget 20..3000; the same bytes are executed in 3 separate child processes, each "
+         "calling RNG::setSeed(seed) before any generator exists and differing only in a heap perturbation (0 / 7 / 100 small blocks kept allocated "
+         "before the first OMPL call); digest = status, raw bytes of every state of every solution path, planner-data vertex count, number of "
+         "termination-condition evaluations; all three digests must be identical. (20%) RNG level: 1..6 generators created after setSeed(), 16 draws "
+         "of uniform / normal / integer / real plus a quaternion and the local seed of each -> identical digests in the 3 processes; a generator "
+         "reseeded with setLocalSeed(x) after 0..7 draws (half-consumed normal cache) reproduces RNG(x) on 32 uniform / normal / integer draws and a "
+         "quaternion. Non-trivial = the run returned a solution with >= 3 states (RNG cases always). Distinct = case bytes.",
+    technique="property-based differential testing across separately perturbed processes (digest equality)",
+    level_text="Generated single-threaded planning runs are repeated in three child processes whose heap layout differs; any dependence on "
+               "addresses, allocation order, uninitialised memory or process state shows up as a digest mismatch. Exploration-level.",
+    level_note="Trusted: the digest (FNV-1a over raw serialized states). Children are forked from a supervisor that never touches OMPL, so "
+               "setSeed() precedes every generator; ASLR is not varied by fork, the heap perturbation is what exposes pointer-dependent behaviour "
+               "(DESIGN section 5.1).",
+    assumptions=["termination depends only on the number of evaluations (call-counting condition)",
+                 "planners whose solve() spawns threads are out of scope of this property"],
+)
